@@ -20,7 +20,12 @@ package kgo
 // offset as stated by its header (first offset + last offset delta, read on entry), and the record count it
 // compares against is the count the header claims (clamped to the number of record bytes, never raised).
 //@ func (o *ProcessFetchPartitionOpts) processRecordBatch(fp *FetchPartition, batch *kmsg.RecordBatch, aborter aborter, decompressor Decompressor) (nrecs int, nbytes int)
-//@   prop C06
+//@   prop C06 C05
+//   read_committed (C05): an abort marker pops the producer's entry from the aborted index only when the batch that
+//   carries it belongs to a transaction the index lists as aborted (abortBatch), once per batch, for the batch's own
+//   producer; every record is offered to maybeKeepRecord with that same abort verdict
+//@   site call trackAbortedPID#0 assert [only-a-listed-aborted-transactions-marker-pops-the-index] abortBatch && !abortMarkerHandled
+//@   site call maybeKeepRecord#0 assert [every-record-judged-with-the-batch-verdict] arg3 == abortBatch
 //@   site store nextAskOffset#0 assert [kafka-5443] val == old(batch.FirstOffset) + int64(old(batch.LastOffsetDelta)) + 1
 //@   site store numRecords#0 assert [claimed-count] val == int(batch.NumRecords)
 //@   site store numRecords#1 assert [clamped-down] val < int(batch.NumRecords) && val >= 1
@@ -34,3 +39,10 @@ package kgo
 //@   prop C06
 //@   requires n >= 0
 //@   ensures len(r) == n
+
+// source.fetch (C05: every committed record is eventually returned): once a fetch response was processed
+// successfully the cursor advancements it produced are kept - even when no record survives read_committed filtering
+// (an aborted transaction filling the whole response, control records only) - so the next fetch starts past them.
+//@ func (s *source) fetch(consumerSession *consumerSession, doneFetch chan<- bool) (fetched bool)
+//@   prop C05
+//@   site call hasErrorsOrRecords#0 assert [offset-advancements-kept-once-the-response-was-processed] setOffsets
